@@ -1749,6 +1749,10 @@ GO_CHAIN_FENS = [
     "4k3/8/8/8/8/8/p3PPPP/2B1K2R b K - 0 1",
     "4k3/8/8/8/8/8/PPPP3p/R3K1B1 b Q - 0 1",
     "r3k2r/P6P/8/8/8/8/8/4K3 w kq - 0 1",
+    # the best move is a knight promotion that mates: the letter printed must be the piece put on the board (the
+    # next go, on the engine's own board, must be answered as the position after the *printed* move demands)
+    "k7/8/8/8/8/7P/5pPK/6BR b - - 0 1",
+    "6br/5Ppk/7p/8/8/8/8/K7 w - - 0 1",
     # double step then en passant by the engine itself
     "4k3/8/8/8/1p6/8/P7/4K3 w - - 0 1",
     "4k3/p7/8/1P6/8/8/8/4K3 b - - 0 1",
